@@ -99,6 +99,35 @@ def w_vacancy(arg):
                 same(L(d, dict(t, preT0=t['preT0'] * big, preT1=t['preT1'] * big, preT2=t['preT2'] * big)), 'scales-with-an-extreme-rate-factor(prefactors)', big)
                 sh = -np.log(big)
                 same(L(d, dict(t, eneT0=t['eneT0'] + sh, eneT1=t['eneT1'] + sh, eneT2=t['eneT2'] + sh)), 'scales-with-an-extreme-rate-factor(transition-energies)', big)
+        if which == 'C04' and k == 0:
+            # clause (d): sites displaced inside the cell along a symmetry-invariant vector field (same space group, same jump topology,
+            # same rates and bindings class by class, classes identified by their (i, j, R) content): same transport coefficients
+            from onsager import crystal as _cr, OnsagerCalc as _oc
+            chem = d.chem
+            VB, _VV = c.FullVectorBasis(chem)
+            if len(VB) > 0:
+                def keyPS(PS): return (int(PS.i), int(PS.j), tuple(int(x) for x in PS.R))
+                def starkeys(ss): return [frozenset(keyPS(ss.states[x]) for x in star) for star in ss.stars]
+                def jkeys(jn, ss): return [frozenset((keyPS(ss.states[i]), keyPS(ss.states[j])) for (i, j), dx in jl) for jl in jn]
+                Vf = np.array(VB[0]); Vf = Vf / np.abs(Vf).max(); eps = 0.02 * min(np.linalg.norm(c.lattice, axis=0))
+                newb = [[np.array(u) for u in b] for b in c.basis]
+                for i in range(len(newb[chem])): newb[chem][i] = newb[chem][i] + eps * (c.invlatt @ Vf[i])
+                c2 = _cr.Crystal(c.lattice, newb, list(c.chemistry), noreduce=True)
+                sh = c2.basis[chem][0] - newb[chem][0]
+                same_order = all(np.allclose((c2.basis[cc][i] - newb[cc][i] - sh) - np.round(c2.basis[cc][i] - newb[cc][i] - sh), 0, atol=1e-9) for cc in range(len(newb)) for i in range(len(newb[cc])))
+                if same_order and len(c2.G) == len(c.G):
+                    jn2 = [[((i, j), c2.lattice @ (R + c2.basis[chem][j] - c2.basis[chem][i])) for (i, j), R in jl] for jl in c.jumpnetwork2lattice(chem, d.om0_jn)]
+                    d2 = _oc.VacancyMediated(c2, chem, d.sitelist, jn2, d.Nthermo)
+                    pairs = [(starkeys(d.thermo), starkeys(d2.thermo)), (jkeys(d.om1_jn, d.kinetic), jkeys(d2.om1_jn, d2.kinetic)), (jkeys(d.om2_jn, d.kinetic), jkeys(d2.om2_jn, d2.kinetic))]
+                    if all(len(a) == len(b) and set(a) == set(b) for a, b in pairs):
+                        mp_ = [[a.index(x) for x in b] for a, b in pairs]
+                        tt = data(d, rng)
+                        t2 = dict(tt, preSV=tt['preSV'][mp_[0]], eneSV=tt['eneSV'][mp_[0]], preT1=tt['preT1'][mp_[1]], eneT1=tt['eneT1'][mp_[1]], preT2=tt['preT2'][mp_[2]], eneT2=tt['eneT2'][mp_[2]])
+                        La, Lb = L(d, tt), L(d2, t2); sca = max(np.abs(x).max() for x in La)
+                        for nm, A_, B_ in zip(NAMES, La, Lb):
+                            dev = np.abs(A_ - B_).max() / sca
+                            acc.check(dev <= 1e-6, 'invariant-under-symmetry-preserving-site-displacement', '%s changes by %.2e of the largest coefficient when the sites move by %.3f along an invariant field (same rates, same bindings)' % (nm, dev, eps),
+                                      sig=('disp', nm), signature='disp|%s|%s' % (nm, 'below-1e-1' if dev < 1e-1 else 'above-1e-1'))
         if which == 'C06':
             if k == nsets:
                 # the first data set once more, after the others went through the same calculator: the identities are a property of
